@@ -4,6 +4,7 @@ import (
 	"fmt"
 	"math"
 	"math/rand"
+	"sort"
 )
 
 // generator of store scripts (shared by C01, C03, C05, C06 with different emphasis)
@@ -18,6 +19,7 @@ type storeGenState struct {
 	ops     []sOp
 	kinds   map[string]int
 	extra   []string // further ids to dump
+	ties    bool     // may write an identity again at an instant already used for it (not for the newest-wins scripts)
 }
 
 const storeBase = int64(1700000000) * 1e9
@@ -44,6 +46,17 @@ func (g *storeGenState) freshTime(target, typ, key string) int64 {
 	id := target + "|" + typ + "|" + storeNormKey(key)
 	if g.used[id] == nil {
 		g.used[id] = map[int64]bool{}
+	}
+	if g.ties && len(g.used[id]) > 0 && g.r.Intn(10) == 0 {
+		// the very instant of an earlier write to this identity, with other content: which of the two is read is the
+		// store's business (the newest-wins statement does not say), but hashes, rebroadcast and refusals must be right
+		ts := make([]int64, 0, len(g.used[id]))
+		for t := range g.used[id] {
+			ts = append(ts, t)
+		}
+		sort.Slice(ts, func(i, j int) bool { return ts[i] < ts[j] })
+		g.kinds["same-instant-other-content"]++
+		return ts[g.r.Intn(len(ts))]
 	}
 	for {
 		t := storeBase + int64(g.r.Intn(2000))*1e9 + int64(g.r.Intn(3))*int64(g.r.Intn(1000000000))
@@ -330,6 +343,7 @@ func (g *storeGenState) refused() {
 func storeGen(r *rand.Rand, id int, flavour string) *sScript {
 	g := &storeGenState{r: r, clock: storeBase + 3000*1e9, used: map[string]map[int64]bool{}, nodes: []string{storeRootID},
 		edges: map[string]bool{"root>" + storeRootID: true}, parents: map[string][]string{storeRootID: {"root"}}, kinds: map[string]int{}}
+	g.ties = flavour != "c01"
 	nNodes := 2 + r.Intn(5)
 	for i := 0; i < nNodes; i++ {
 		g.createNode()
